@@ -575,14 +575,20 @@ impl PlaybackCursor {
                     .map_err(|error| Self::map_replay_error(target, error))?;
                 self.replay_base_validated = true;
             }
+            // Advance a copy and publish it only once every tick up to `target` has verified:
+            // `advance_replay_state` applies each patch before checking its hashes, so advancing
+            // `self.state` in place would leave unverified state behind the unchanged `self.tick`
+            // when a later tick is rejected.
+            let mut advanced = self.state.clone();
             advance_replay_state(
                 provenance,
                 self.worldline_id,
-                &mut self.state,
+                &mut advanced,
                 self.tick,
                 target,
             )
             .map_err(|error| Self::map_replay_error(target, error))?;
+            self.state = advanced;
         }
 
         // Update cursor position
